@@ -43,7 +43,7 @@ func (e *Engine) Find(haystack []byte) *Match {
 //	match := engine.FindAt([]byte("hello test"), 0)  // matches at 0
 //	match := engine.FindAt([]byte("hello test"), 6)  // no match (^ won't match at pos 6)
 func (e *Engine) FindAt(haystack []byte, at int) *Match {
-	if at > len(haystack) {
+	if at < 0 || at > len(haystack) {
 		return nil
 	}
 
